@@ -67,7 +67,17 @@ def maskArrOfJson (j : Json) : R (Option (Arr Bool)) :=
     let sh ← getInts m "shape"
     let v ← getFloats m "v"
     let a : Arr Float := { s0 := sh[0]!, s1 := sh[1]!, get := mkGet sh[1]! v }
-    pure (some (gtMask a 0))
+    pure (some (gtMask a (Float.ofInt Gen.dftMaskThreshold)))
+
+/-- a `shape=` / `prop_shape=` argument: null | int | [a, b] -/
+def shapeArgOfJson (j : Json) (k : String) : R Gen.ShapeArg :=
+  match optVal j k with
+  | none => pure .none
+  | some Json.null => pure .none
+  | some (Json.arr a) => do
+    let v ← a.mapM (·.getInt?)
+    if v.size == 2 then pure (.pair v[0]! v[1]!) else throw s!"{k}: expected a pair"
+  | some v => do let n ← v.getInt?; pure (.scalar n)
 
 def maskOfJson (j : Json) : R (Option Extent) :=
   match optVal j "mask" with
@@ -84,24 +94,48 @@ def handle (op : String) (j : Json) : Option (R Json) :=
       let dx ← getFloats j "dx"; let du ← getFloats j "du"
       let wl ← getFloat j "wl"; let z ← getFloat j "z"
       let os ← getInt j "os"
-      let sh ← getInts j "shape"; let ps ← getInts j "prop_shape"
-      let maskArr ← maskArrOfJson j
-      -- the mask box: from the mask array itself (`lentil.boundary` model) when given, else the box passed in
-      let mask ← match maskArr with
-        | some m => match boundary m with
-          | some b => pure (some b)
-          | none => throw "IndexError"
-        | none => maskOfJson j
       let al := dftAlpha dx[0]! dx[1]! du[0]! du[1]! wl z os
-      let out := (propagateDft fs.toList al.1 al.2 sh[0]! sh[1]! ps[0]! ps[1]! os mask).map freezeF
-      let canvas := wavefrontField one out (sh[0]! * os) (sh[1]! * os)
       let mt := dftMeta dx[0]! dx[1]! du[0]! du[1]! wl z os
-      pure (okJ [("fields", Json.arr (out.map cfFldToJson).toArray), ("canvas", cfArrToJson canvas),
-                 ("alpha", Json.arr #[floatToJson al.1, floatToJson al.2]),
-                 ("splits", Json.arr (fs.map fun t => Json.arr #[intJ t.fix0, intJ t.fix1, floatToJson t.sub0, floatToJson t.sub1])),
-                 ("mask_box", match mask with | some b => extToJson b | none => Json.null),
-                 ("wavelength", floatToJson mt.1), ("focal_length", floatToJson mt.2.2),
-                 ("pixelscale", Json.arr #[floatToJson mt.2.1.1, floatToJson mt.2.1.2])])
+      match optVal j "wshape" with
+      | none =>
+        -- resolved form (used by other properties' harnesses): explicit shape / prop_shape pairs and the mask box
+        let sh ← getInts j "shape"; let ps ← getInts j "prop_shape"
+        let mask ← maskOfJson j
+        let out := (propagateDft fs.toList al.1 al.2 sh[0]! sh[1]! ps[0]! ps[1]! os mask).map freezeF
+        let canvas := wavefrontField one out (sh[0]! * os) (sh[1]! * os)
+        pure (okJ [("fields", Json.arr (out.map cfFldToJson).toArray), ("canvas", cfArrToJson canvas),
+                   ("alpha", Json.arr #[floatToJson al.1, floatToJson al.2]),
+                   ("splits", Json.arr (fs.map fun t => Json.arr #[intJ t.fix0, intJ t.fix1, floatToJson t.sub0, floatToJson t.sub1])),
+                   ("mask_box", match mask with | some b => extToJson b | none => Json.null),
+                   ("wavelength", floatToJson mt.1), ("focal_length", floatToJson mt.2.2),
+                   ("pixelscale", Json.arr #[floatToJson mt.2.1.1, floatToJson mt.2.1.2])])
+      | some _ =>
+      let ws ← getInts j "wshape"
+      let shape ← shapeArgOfJson j "shape"; let propShape ← shapeArgOfJson j "prop_shape"
+      let maskArr ← maskArrOfJson j
+      -- the whole call as written: defaults, broadcasting, mask guard, boundary, out_extent (all from generated code)
+      match propagateDftCall fs.toList al.1 al.2 ws[0]! ws[1]! shape propShape os maskArr with
+      | .valueError => pure (errJ "ValueError")
+      | .indexError => pure (errJ "IndexError")
+      | .ok outFields S0 S1 =>
+        let out := outFields.map freezeF
+        let canvas := wavefrontField one out S0 S1
+        let maskBox := match maskArr with
+          | some m => (boundary m).map fun b => maskOutExtent m.s0 m.s1 S0 S1 b
+          | none => none
+        pure (okJ [("fields", Json.arr (out.map cfFldToJson).toArray), ("canvas", cfArrToJson canvas),
+                   ("alpha", Json.arr #[floatToJson al.1, floatToJson al.2]),
+                   ("splits", Json.arr (fs.map fun t => Json.arr #[intJ t.fix0, intJ t.fix1, floatToJson t.sub0, floatToJson t.sub1])),
+                   ("out_shape", ints #[S0, S1]),
+                   ("mask_box", match maskArr with
+                      | some m => (match boundary m with | some b => extToJson b | none => Json.null)
+                      | none => Json.null),
+                   ("mask_extent", match maskBox with | some b => extToJson b | none => Json.null),
+                   ("wavelength", floatToJson mt.1), ("focal_length", floatToJson mt.2.2),
+                   ("pixelscale", Json.arr #[floatToJson mt.2.1.1, floatToJson mt.2.1.2])])
+  | "c02.fix" => some do
+      let v ← getFloats j "v"
+      pure (okJ [("fix", ints (v.map fun x => (TruncLike.trunc x : Int)))])
   | "c02.window" => some do
       let oe ← extOfJson j "out_extent"
       let ps ← getInts j "prop_shape"; let fx ← getInts j "fix"
